@@ -20,6 +20,9 @@ INITIAL = {
     'BoolOpt': ['0'], 'AutoOpt': ['auto'], 'IntOpt': ['5'], 'FloatOpt': ['0.5'], 'StrOpt': ['hello'],
     'CommaOpt': ['a,b'], 'LineOpt': ['l1', 'l2 x'], 'SocksPort': ['9050'],
 }
+# what Tor lists under config/defaults for these options (a saved 0 / False / emptied list is a value, not "unset")
+DEFAULTS = {'BoolOpt': ['1'], 'AutoOpt': ['1'], 'IntOpt': ['42'], 'FloatOpt': ['2.5'], 'StrOpt': ['dflt'],
+            'CommaOpt': ['x,y'], 'LineOpt': ['reject *:25'], 'SocksPort': ['9050']}
 ASSIGN = {
     'bool': [(True, '1'), (False, '0')],
     'auto': [(1, '1'), (-1, 'auto'), ('0', '0'), (0, '0')],      # (text is converted like a number)
@@ -61,7 +64,7 @@ class Run(object):
         self.log = []
         self.options = options
         with World() as w:
-            self.impl = CfgImpl(w, [(n, INITIAL[n]) for n in options])
+            self.impl = CfgImpl(w, [(n, INITIAL[n]) for n in options], defaults=dict((n, DEFAULTS[n]) for n in options))
             sim = self.impl.sim
             sim.echo_conf_changed = _ECHO[0]
             cfg = self.impl.cfg
